@@ -30,7 +30,7 @@ CLAIMS.update({
    note="Trusted: model of a diagnostic-handler call (counts as delivered; may raise only the errored flag of the parser whose wrapper it is); the handler given to newParser is not that parser's own wrapper; deferred panic wrappers are not executed (recover unmodelled).",
    ref="6/C07"),
  "C13": dict(
-   text="Partial (in progress). Deductive proof of the scanner's cursor primitives against a code-point model of the source (validA/runeA/widthA over the byte array): atEnd, peek, peekNext (two code points of lookahead, exactly), advance (moves by exactly one code point, column+1, stays on a boundary), with panic-freedom of every slice expression.",
+   text="Deductive proof of the whole scanner (every function of scanner.go is under contract) against a code-point model of the source (validA/runeA/widthA over the byte array, lineAt/colAt with one-step unfolding): the cursor stays in bounds on a code point boundary; every token's literal is the source text between its start and end offsets; its range is the 1-based line/column, in code points, of those offsets; between tokens only blanks are skipped; every non-EOF token is non-empty (progress) and the stream ends with exactly one EOF which is the last token; the token kind follows the class of the first character (identifier/keyword with the case-folding rule, INT/FLOAT, text, character, comment, punctuation); New refuses invalid UTF-8; all index/slice expressions are in bounds and all loops terminate (explicit variants). Not decided: the keyword table itself, the exact FLOAT condition 'digits , digit', indentation counting.",
    note="Trusted: contracts of utf8.DecodeRune/Valid/RuneCountInString (well-formed UTF-8 model: valid_step, valid_ascii axioms), immutability of the source text.",
    ref="6/C13"),
  "C10": dict(
@@ -45,6 +45,10 @@ CLAIMS.update({
    text="Partial (rule 'operand of a wrong type', so far). For the type checker's VisitUnaryExpr, VisitBinaryExpr (arithmetic, durch, modulo, bitwise, shifts, comparisons, entweder-oder) and VisitTernaryExpr (zwischen), per operator: an operand tuple that is inadmissible by the language's typing table is reported (the module becomes faulty through the one error path err, which is itself under contract), an admissible one adds no diagnostic, and the result type is the one the table gives. The same table (package ast contracts) is the precondition of the code generator's contracts under C02. isOneOf is proved to be membership up to type equivalence. The remaining rules of the statement (names, redeclaration, constants, loops, returns, visibility, articles) are not yet under contract.",
    note="Trusted: Evaluate as induction hypothesis for sub-expressions, findOverload frame, ddptypes contracts (C14), diagnostic handler model.",
    ref="6/C04"),
+ "C19": dict(
+   text="Partial. Deductive proofs for the literal paths: the scanner accepts exactly the seven escape sequences (a b n r t backslash and the literal's own quote) and reports every other one; lemmas show that scanner and parser use the same escape sets for characters and for texts; parseChar is proved against its total functional specification (one code point denotes itself, backslash+escape denotes the escape's value, unknown escapes are reported, anything else yields -1); parseIntLit returns the written value when strconv accepts the literal and otherwise delivers a diagnostic with value 0 (never a silently altered value); the text un-escaping loop parseString is proved memory-safe and terminating. The functional correctness of parseString's result, decimal rounding and the run-time side are not decided.",
+   note="Trusted: utf8/strings/strconv contracts (first/last code point, ParseInt succeeds exactly on representable literals), string-length axioms of the engine's string model, diagnostic handler model.",
+   ref="6/C19"),
 })
 NA = {
  "C08": "relational whole-program property (no holder observes another holder's mutation); no function contract within reach states it; the local copy/claim mechanics are covered under C05/C18 where claimed",
